@@ -29,7 +29,7 @@ RULE = ('one foreign .trashinfo per case (absolute / relative Path, percent-esca
         'distinct = (content features, trash-dir kind, home mode)')
 ASSUMPTIONS = ['for a relative Path in the home trash the spec defines no base: only agreement between the commands is required there',
                'trash-rm has no --trash-dir option and is skipped for custom trash directories']
-PROBES = ['trash-dir-through-cross-volume-symlink', 'four-way-agree', 'relative-path', 'absolute-path', 'home-own-volume', 'custom-trash-dir', 'duplicate-keys', 'crlf', 'escapes',
+PROBES = ['trash-dir-through-cross-volume-symlink', 'several-trash-dir-options', 'four-way-agree', 'relative-path', 'absolute-path', 'home-own-volume', 'custom-trash-dir', 'duplicate-keys', 'crlf', 'escapes',
           'non-utf8-escape', 'empty-threshold-checked', 'rm-checked', 'restore-checked', 'undated']
 TECHNIQUE = 'deterministic simulation, four-way differential of the readers on rebuilt worlds plus comparison with an independent spec decoder; TRASH_DATE sweeps the purge threshold'
 LEVEL_TEXT = 'seeded exploration of .trashinfo contents x trash-dir kinds; agreement of list / restore / rm / empty on path and date, and with the spec'
@@ -100,6 +100,7 @@ def gen(rng):
     env, uid, home = dict(L['env']), L['uid'], L['home']
     locs = [t for t in TG.trash_locations(L) if t[2]]
     custom = None
+    other_td = None
     if rng.random() < 0.2:
         custom = rng.choice([home + '/ct'] + [v + '/ct' for v in L['vols']])
         if L['vols'] and rng.random() < 0.5:
@@ -108,6 +109,11 @@ def gen(rng):
             steps.append(['l', home + '/ctlink', v + '/realct'])
             custom = home + '/ctlink'
         tdir, top = custom, None
+        others = [c for c in [home + '/ct'] + [v + '/ct' for v in L['vols']] if c != custom]
+        if others and rng.random() < 0.5:
+            # trash-list / trash-empty are given a second --trash-dir, on another volume, BEFORE the one under test
+            other_td = rng.choice(others)
+            G.add_trashed(steps, other_td, 'neighbour', 'docs/neighbour', '2021-01-01T01:01:01', 'file', tag='o')
     else:
         tdir, top, _u = rng.choice(locs)
     nm = rng.choice(['foreign', 'with space', 'per%cent', 'pl+us', 'ü', 'semi;colon'])
@@ -121,7 +127,7 @@ def gen(rng):
         'world': {'mounts': L['mounts'], 'steps': steps},
         'procs': [{'argv': ['trash-list'], 'env': env, 'cwd': '/', 'uid': uid}],
         'dirsalt': rng.randrange(1 << 30),
-        'note': {'tdir': tdir, 'custom': bool(custom), 'feats': feats, 'home_mode': hm},
+        'note': {'tdir': tdir, 'custom': bool(custom), 'feats': feats, 'home_mode': hm, 'other_td': other_td},
     }
 
 
@@ -135,6 +141,9 @@ def check(sim, case, st):
     mounts = OR.mounts_of(case)
     custom = note.get('custom')
     td = ['--trash-dir', tdir] if custom else []
+    td_multi = (['--trash-dir', note['other_td']] if note.get('other_td') else []) + td     # list and empty accept several
+    if note.get('other_td'):
+        st.probes['several-trash-dir-options'] += 1
     sim.setup(case)
     snap0 = sim.snap()
     ip = tdir + '/info/fe.trashinfo'
@@ -181,7 +190,7 @@ def check(sim, case, st):
         res.append(('C20/%s/%s' % (clause, sigctx), '%s\n.trashinfo (%s): %r' % (msg, ip, content)))
 
     # 1. trash-list
-    rl = sim.run({'argv': ['trash-list'] + td, 'env': env, 'cwd': '/', 'uid': uid})
+    rl = sim.run({'argv': ['trash-list'] + td_multi, 'env': env, 'cwd': '/', 'uid': uid})
     st.sims += 1
     if rl.exc is not None:
         bad('list-traceback:%s' % rl.exc_frame, 'trash-list raised %s' % rl.exc)
@@ -265,7 +274,7 @@ def check(sim, case, st):
             for now in (at, after1):
                 sim.setup(case)
                 e = dict(env, TRASH_DATE=TG.iso(now))
-                re_ = sim.run({'argv': ['trash-empty'] + td + [str(D)], 'env': e, 'cwd': '/', 'uid': uid})
+                re_ = sim.run({'argv': ['trash-empty'] + td_multi + [str(D)], 'env': e, 'cwd': '/', 'uid': uid})
                 st.sims += 1
                 s3 = sim.snap()
                 outcomes.append((rip not in s3, re_.exc))
